@@ -186,6 +186,7 @@ func checkC11(w *World, r *Report) {
 	// (g) getters
 	ruleGetters(w, r, "C11", trig, pred, opts)
 
+	ruleBarWait(w, r, "C11")
 	// (h) the trigger function itself: sets the flag on every path and never touches aborted/current/total
 	{
 		bad := ""
